@@ -795,7 +795,7 @@ func runLenBeforeEnd(rc *RuleCtx) {
 func init() {
 	register(&Rule{
 		Name:     "PARSEWIDTH",
-		Doc:      "text is parsed at the width of the kind it is stored as: when the result of strconv.ParseInt / ParseUint(…, bitSize) is narrowed by a conversion to an integer type of fewer bits than bitSize, the conversion is control-dependent on an ordered comparison of the parsed value (an explicit range check). Parsing at 64 bits and casting made `?small=70000` into an i16 field the value 4464 and `?b=300` into a byte 44, silently (HTTP query, header, cookie, path and form sources all go through DecodeText)",
+		Doc:      "text is parsed at the width of the kind it is stored as: when the result of strconv.ParseInt / ParseUint(…, bitSize) is narrowed by a conversion to an integer type of fewer bits than bitSize, the conversion is control-dependent on an ordered comparison of the parsed value (an explicit range check); and text is never parsed NARROWER than the integer type it is then stored in (a 32-bit parse feeding an i64 map key rejects every key beyond 2^31). Parsing at 64 bits and casting made `?small=70000` into an i16 field the value 4464 and `?b=300` into a byte 44, silently (HTTP query, header, cookie, path and form sources all go through DecodeText)",
 		Configs:  "NP",
 		Floor:    map[string]int{"N": 6, "P": 6},
 		Controls: 1,
@@ -849,6 +849,11 @@ func runParseWidth(rc *RuleCtx) {
 					size = 64
 				}
 				rc.Examined++
+				if bits(dst) > size && dst.Kind() != types.Uint8 {
+					// parsed NARROWER than stored: the upper part of the target's range is rejected
+					rc.bad(fn, fmt.Sprintf("strconv.%s(…, %d) → %s", n, size, dst.Name()), cv.Pos(), fmt.Sprintf("the text is parsed at %d bits but stored as %s: values of the target's range beyond %d bits are rejected although the field holds them", size, dst.Name(), size))
+					continue
+				}
 				good := bits(dst) >= size
 				if !good {
 					for _, cd := range controllingIfs(b) {
